@@ -38,6 +38,7 @@ func InitDiscardStats(opt Options) (*discardStats, error) {
 		opt:      opt,
 	}
 	if err == z.NewFile {
+		vevent(1, fname, 1<<20, 0) // verif: create
 		// We don't need to zero out the entire 1MB.
 		lf.zeroOut()
 
@@ -77,6 +78,7 @@ func (lf *discardStats) get(offset int) uint64 {
 }
 func (lf *discardStats) set(offset int, val uint64) {
 	binary.BigEndian.PutUint64(lf.Data[offset:offset+8], val)
+	vevent(2, discardFname, int64(offset), 8) // verif: write
 }
 
 // zeroOut would zero out the next slot.
@@ -127,6 +129,7 @@ func (lf *discardStats) Update(fidu uint32, discard int64) int64 {
 	lf.nextEmptySlot++
 	for lf.nextEmptySlot >= lf.maxSlot() {
 		y.Check(lf.Truncate(2 * int64(len(lf.Data))))
+		vevent(5, discardFname, int64(len(lf.Data)), 0) // verif: truncate
 	}
 	lf.zeroOut()
 
